@@ -403,6 +403,7 @@ def gen_c03(tier, seed):
             regs.update(regsx)
             g.add(setup_ops(regs, memx, ins(OP['MOVAW'], so, reg(8)) + [0x70]) + ['st'], 'movaw')
             g.add(setup_ops(regs, memx, ins(OP['PUSHAW'], so) + [0x70]) + ['st', 'rw:%x' % STK], 'pushaw')
+            g.add(setup_ops(regs, memx, ins(0x0c, so, reg(8)) + [0x70]) + ['st'], 'movtrw')      # MOVTRW: the address, like MOVAW
     # operand positions 2 and 3 through the four-operand field instructions
     for smode in MODES_SRC:
         for dmode in MODES_SRC:
